@@ -12,7 +12,9 @@ RULE = ("closed polygonal curves (int/Fraction/float) and curved curves (circle 
         "observables: vertices, orientation, area, segments[i](t) on a grid, == with the "
         "original after clean; non-trivial = at least one parameter survives the 1e-6 filter; distinct = SHA-1")
 PROOF_STATUS = ("Props/C15.v: retrace, junctions at the split parameters, no zero-length piece, area / winding number / "
-                "closedness unchanged, clean idempotent and complete, all for straight segments and rational data")
+                "closedness unchanged, split TOTAL on valid requests (repeated and nearly equal parameters merged, used "
+                "parameters >= 1e-6 apart), clean idempotent and complete, all for straight segments and rational data; "
+                "F15, F15c (=F23), F25 repaired")
 
 
 def _nodes(rng, n, k):
